@@ -20,7 +20,7 @@ pub enum Op {
     Write { pipe: usize, n: u64, seed: u64 },
     Read { pipe: usize, n: u64 },
     /// read (false) / write (true) on a descriptor that is not a pipe end
-    Foreign { write: bool, fd: u64, n: u64 },
+    Foreign { write: bool, fd: u64, n: u64, #[serde(default)] bad_buf: u8 },
 }
 
 #[derive(Clone, Debug, Serialize, Deserialize)]
@@ -59,7 +59,7 @@ impl Property for C14 {
                 0 => Op::Pipe,
                 1 => Op::Write { pipe: t.below(4) as usize, n, seed: t.raw() },
                 2 => Op::Read { pipe: t.below(4) as usize, n },
-                _ => Op::Foreign { write: t.bool(), fd: t.pick(&[0u64, 1, 2, 3, 5, 100, 1023]), n },
+                _ => Op::Foreign { write: t.bool(), fd: t.pick(&[0u64, 1, 2, 3, 5, 100, 1023]), n, bad_buf: t.weighted(&[60, 15, 15, 10]) as u8 },
             });
         }
         Case { ops }
@@ -219,8 +219,18 @@ impl Property for C14 {
                     }
                     last_pipe_used = Some(pi);
                 }
-                Op::Foreign { write, fd, n: len } => {
+                Op::Foreign { write, fd, n: len, bad_buf } => {
                     let before = ax.mem_read_bytes(DATA, DLEN).unwrap();
+                    // the buffer of a call that is not ours is none of the pipe handler's business
+                    let buf = match bad_buf {
+                        1 => DATA + DLEN - 4,   // runs past the end of its area
+                        2 => 0x7777_0000,       // unmapped
+                        3 => 0,                 // NULL
+                        _ => buf,
+                    };
+                    if *bad_buf != 0 {
+                        classes.push("foreign-descriptor-awkward-buffer");
+                    }
                     let (r, ev) = sys(&mut ax, if *write { 1 } else { 0 }, *fd, buf, *len);
                     classes.push("foreign-descriptor");
                     if let Api::Panic(p) = &r {
@@ -290,10 +300,10 @@ impl Property for C14 {
     }
 
     fn rule(&self) -> String {
-        "cases: histories of 1–39 syscalls over pipe(), write(fd,buf,n), read(fd,buf,n) on 1–4 pipes and on non-pipe descriptors {0,1,2,3,5,100,1023}, n ∈ {0,1,<8,300,uniform ≤300}, with a user SYSCALL hook registered after handle_syscalls([Pipe]); one VecDeque per pipe is the model: count ≤ requested and ≤ available, ≥1 when both positive, exactly the next bytes, buffer beyond the count untouched, pipe calls never reach the user hook, foreign calls reach it exactly once with registers intact, every pipe is drained at the end and compared; non-trivial = write→partial read→read on one pipe, or two pipes interleaved; distinct by hash(history)".into()
+        "cases: histories of 1–39 syscalls over pipe(), write(fd,buf,n), read(fd,buf,n) on 1–4 pipes and on non-pipe descriptors {0,1,2,3,5,100,1023} (40 % of them with a buffer that runs past its area, is unmapped or NULL), n ∈ {0,1,<8,300,uniform ≤300}, with a user SYSCALL hook registered after handle_syscalls([Pipe]); one VecDeque per pipe is the model: count ≤ requested and ≤ available, ≥1 when both positive, exactly the next bytes, buffer beyond the count untouched, pipe calls never reach the user hook, foreign calls reach it exactly once with registers intact, every pipe is drained at the end and compared; non-trivial = write→partial read→read on one pipe, or two pipes interleaved; distinct by hash(history)".into()
     }
     fn required_classes(&self, _tier: Tier) -> Vec<String> {
-        ["write-partial-read-read", "two-pipes-interleaved", "foreign-descriptor", "short-read", "full-read", "read-empty"].iter().map(|s| s.to_string()).collect()
+        ["write-partial-read-read", "two-pipes-interleaved", "foreign-descriptor", "foreign-descriptor-awkward-buffer", "short-read", "full-read", "read-empty"].iter().map(|s| s.to_string()).collect()
     }
     fn assumptions(&self) -> Vec<String> {
         vec!["descriptor values are never compared; the 16 bytes written by pipe() are decoded as two u64, or two i32 if the upper half was left untouched".into(), "a run that ends in the handler's own 'Duplicate … end for pipe' error (random descriptor collision) is discarded and counted".into(), "calls on the wrong end of a pipe are outside the stated domain and are not generated".into()]
